@@ -386,7 +386,10 @@ def check(case):
         # (a resumed call starts with the library's initial-step rule, so its grid may differ from the fault-free one:
         #  the resumed result must be as accurate as the fault-free result, not identical to it)
         allowed = 3 * err_ref + (1e-9 * (1 + float(np.max(np.abs(y_fine)))) if fam in ("explicit_fixed", "splitting") else tol_res)
-        if fam not in ("explicit_fixed", "splitting", "implicit_fixed") and err_ref > 0.5 * tol_res:
+        if case.get("kick") or (fam not in ("explicit_fixed", "splitting", "implicit_fixed") and err_ref > 0.5 * tol_res):
+            # (with the forcing that switches on within a few thousandths of the span the error of ANY run depends on how its steps
+            #  straddle the switch - the estimators do not see it, 40 x differences between two fault-free grids were measured:
+            #  those configurations exist for the structural oracles)
             # the fault-free run itself misses its tolerance by far (the step controller is blind to the forcing that switches on,
             # open finding D29): where its error comes from which steps straddle the switch, "as accurate as the fault-free run"
             # has no meaning - the structural oracles above still apply
